@@ -106,6 +106,38 @@ static inline Op gen_set_counter(int kind, int slot) {
     return c;
 }
 
+// a storm of setter calls with no data call in between: 255 / 256 / 257 / 512 explicit calls alternating between two
+// values (each one really changes the state), or one call repeated 256 .. 65537 times (rep=N).  Anything that counts
+// changes in a narrow type, or defers work to the next data call, sees its threshold here.
+static inline void gen_storm(Program &p, int kind, int slot, bool tweaked, int max_rep = 65537) {
+    int bs = kind_bs(kind);
+    bool mant = kind == CM || kind == MK || kind == PM;
+    int which = *irange(0, 2);   // 0 tweak, 1 key, 2 counter
+    bool ctr = kind == C128 || kind == C64 || kind == CM;
+    if (!ctr && kind != MK && kind != T128 && kind != T64) which = 1;        // parallel objects and plain schedules: only the key can change
+    if (which == 2 && !ctr) which = 0;
+    if (which == 0 && !(tweaked || mant)) which = 1;
+    auto mk = [&](const Bytes &v) {
+        Op o;
+        if (which == 0) { o = mkop(opn(kind, "set_tweak")); o.set("s", slot).set("tweak", v).set("len", (long long)v.size()); }
+        else if (which == 1) {
+            o = mkop(opn(kind, (tweaked && !mant) ? "set_tweaked_key" : "set_key")); o.set("s", slot).set("key", v).set("len", (long long)v.size());
+            if (mant) { o.set("rounds", 7); if (kind == PM || kind == MK) o.set("mode", 1); }
+        } else { o = mkop(opn(kind, "set_counter")); o.set("s", slot).set("ctr", v).set("len", (long long)v.size()); }
+        return o;
+    };
+    size_t n = which == 1 ? (mant ? 16 : (size_t)bs) : (mant && which == 0 ? 8 : (size_t)bs);
+    Bytes a = *gbytes(n), b = *gbytes(n);
+    if (*chance(50)) {
+        int cnt = *rc::gen::element(255, 256, 257, 512);
+        for (int i = 0; i < cnt; ++i) p.push_back(mk(i & 1 ? b : a));
+    } else {
+        Op o = mk(a); o.set("rep", std::min(max_rep, *rc::gen::element(256, 256, 512, 512, 1024, 65536, 65537)));
+        p.push_back(o);
+        if (*chance(50)) p.push_back(mk(b));
+    }
+}
+
 static inline Op gen_ctr_chunk(int kind, int slot) {
     int bs = kind_bs(kind);
     int n = *gchunk(bs);
@@ -133,6 +165,8 @@ struct HistOpts {
     bool loose_tweak = false;    // set_tweak also on a plain-keyed or un-keyed CTR object: accepted by the API, result unspecified by
                                  // the documentation but still required to be deterministic and back-end independent (no model)
     bool allocfail = false;      // some init calls run with their first allocation request failing (needs the allocator monitor)
+    bool storms = true;          // rare storms of 255..65537 consecutive setter calls (gen_storm)
+    int max_rep = 65537;         // (harnesses that run under valgrind keep the repeat counts small)
     int inbetween = 10;          // percent of key lengths between primary sizes
     int max_chunk_class = 2;     // 0: tiny chunks only, 2: full gchunk distribution
 };
@@ -152,6 +186,18 @@ struct HistGen {
             if (b.size() > n) b.resize(n);          // a prefix of an earlier value is just as interesting
             else if (b.size() < n) b.resize(n, 0);
             return b;
+        }
+        // a value of another class of this history (the tweak that is also the key's first bytes, the counter that equals the tweak):
+        // legal, and what an "equal, so nothing to do" shortcut between two different arguments needs
+        if (n > 0 && *chance(6)) {
+            std::vector<const Bytes *> all;
+            for (auto *pl : {&keypool, &tweakpool, &ctrpool}) if (pl != &pool) for (const Bytes &x : *pl) if (!x.empty()) all.push_back(&x);
+            if (!all.empty()) {
+                Bytes b = **rc::gen::elementOf(all);
+                b.resize(n, 0);
+                pool.push_back(b);
+                return b;
+            }
         }
         Bytes b = counter ? *gcounter(n) : *gbytes(n);
         pool.push_back(b);
@@ -237,8 +283,8 @@ struct HistGen {
             size_t n = (size_t)nblk * bs;
             const char *fn = s.kind == PM ? "crypt" : (*chance(50) ? "enc" : "dec");
             Op e = base(i, fn, inv);
-            e.set("in", *gdata(n));
-            if (s.kind == PM) e.set("tweak", *gdata(n)).set("to", *goffset());
+            e.set("in", *gblocks(n, (size_t)bs));
+            if (s.kind == PM) e.set("tweak", *gblocks(n, 8)).set("to", *goffset());
             if (*chance(30)) e.set("ip", 1).set("io", *goffset()); else e.set("io", *goffset()).set("oo", *goffset());
             p.push_back(e);
         }
@@ -367,6 +413,7 @@ struct HistGen {
             key(i);
             return;
         }
+        if (o.storms && *chance(1) && *chance(10)) { gen_storm(p, s.kind, i, s.tweaked, o.max_rep); if (ctr && !o.midstream) counter(i); return; }
         int w = *irange(0, 99);
         if (w < 50) data(i);
         else if (w < 65) { if (ctr) counter(i); else data(i); }
